@@ -105,7 +105,10 @@ type ED struct {
 	ForwardCount  int // definite forwards seen since last revive (C06)
 	BySeek        bool
 	MaybePruned   bool // its completed row may have been pruned (sticky through later seeks)
+	SnapCopy      bool // acknowledged dead-letter copy that a seek to its own subscription's snapshot may re-open (known finding)
 	SnapPruned    bool // settled by a seek to a snapshot whose view of this message may have lost a pruned ack
+	GuessBound    bool // its ack id was bound by a guess among equally plausible candidates
+	MaybeTaken    bool // optional copy that lost such a guess: the row seen may really have been this one
 	MaybeCopy     bool // bound by a guess among copies of one message, one of them dead-letter forwarded
 	Grace         bool // acknowledged, but the server may not have committed it yet (stalled-server push runs)
 	Round         int  // incremented whenever a seek (possibly) re-opened this delivery: a new dead-letter round
@@ -499,8 +502,12 @@ func (m *Model) Pull(s *MSub, max int, resp []RecvMsg, t0, t1 time.Time) *Violat
 			// message on one subscription, e.g. a dead-letter cycle): the binding is a guess,
 			// so the ones not chosen are no longer required (they may be the real match)
 			maybeCopy := false
+			if e != nil && len(ties) > 0 {
+				e.GuessBound = true
+			}
 			for _, x := range ties {
 				x.Fuzzy = true
+				x.MaybeTaken = true
 				m.probe("ambiguous_binding")
 				if x.Origin != nil {
 					maybeCopy = true
@@ -575,6 +582,22 @@ func (m *Model) Pull(s *MSub, max int, resp []RecvMsg, t0, t1 time.Time) *Violat
 			return viol("C14", "delivered_after_retention", "%v delivered at %v, retention ended by %v%s", e, t0.Sub(epoch), e.RetHi.Sub(epoch), m.describe(e))
 		}
 		// state
+		if e.SnapPruned && e.Fuzzy {
+			// known finding: the snapshot is computed from delivery rows, and the row of a
+			// message acknowledged after the oldest unacknowledged one may have been pruned
+			// already; seeking a sibling subscription to that snapshot then restores a
+			// message that was acknowledged when the snapshot was taken
+			if v := m.knownOr(viol("C13", "restored_pruned_ack", "%v delivered after a seek to a snapshot in which message %d was acknowledged (its completed row had been pruned before the snapshot was taken)", e, e.Msg.Seq)); v != nil {
+				return v
+			}
+			e.SnapPruned = false
+		}
+		if e.SnapCopy && e.Fuzzy {
+			if v := m.knownOr(viol("C13", "restored_acked_dead_letter_copy", "%v, an acknowledged dead-letter forwarded copy, delivered again after a seek of its subscription to a snapshot taken after the acknowledgement", e)); v != nil {
+				return v
+			}
+			e.SnapCopy = false
+		}
 		if !e.Fuzzy && !(e.State == stAcked && e.Grace) {
 			switch e.State {
 			case stAcked:
@@ -706,7 +729,15 @@ func (m *Model) Pull(s *MSub, max int, resp []RecvMsg, t0, t1 time.Time) *Violat
 						if x.Origin == nil && x.Msg.Seq >= e.Msg.Seq {
 							continue
 						}
-						if q == nil || x.CreLo.After(q.CreLo) {
+						later := false
+						if q != nil {
+							if x.Origin == nil && q.Origin == nil {
+								later = x.Msg.Seq > q.Msg.Seq // publish order is known exactly
+							} else {
+								later = x.CreLo.After(q.CreLo)
+							}
+						}
+						if q == nil || later {
 							q = x
 						}
 					}
@@ -788,8 +819,9 @@ func (m *Model) Pull(s *MSub, max int, resp []RecvMsg, t0, t1 time.Time) *Violat
 			if e.CreHi.After(t1) {
 				e.CreHi = t1
 			}
-			if o := e.Origin; o != nil && o.DLMaybe {
+			if o := e.Origin; o != nil && o.DLMaybe && !e.GuessBound {
 				// an optional forwarded copy showed up: its source was dead-lettered
+				// (not concluded from a guessed binding: the row may be another source's copy)
 				o.State, o.DLMaybe, o.Fuzzy = stDL, false, false
 				o.SettledLo = e.CreLo
 				o.ForwardCount++
@@ -903,6 +935,9 @@ func (m *Model) deadLetter(e *ED, t0, t1 time.Time) {
 		}
 		if ex != nil && wasMaybe && !(ex.Fuzzy && ex.Cause == "dlforward-maybe") {
 			continue // its copy has been accounted for already
+		}
+		if ex != nil && wasMaybe && ex.MaybeTaken {
+			continue // a delivery bound to a sibling copy by a guess may have been this one: stays optional
 		}
 		if ex != nil && wasMaybe {
 			// resolved: either forwarded earlier or now
@@ -1108,6 +1143,7 @@ func (m *Model) mayHaveBeenPruned(e *ED, now time.Time) bool {
 
 func (m *Model) revive(e *ED, t0, t1 time.Time) {
 	e.SnapPruned = false
+	e.SnapCopy = false
 	if e.MaybePruned || m.mayHaveBeenPruned(e, t0) {
 		e.MaybePruned = true // sticky: a row that may be gone stays "may be gone" through later seeks
 		// the completed row may have been pruned (then nothing is revived) or not (then it
@@ -1132,6 +1168,7 @@ func (m *Model) revive(e *ED, t0, t1 time.Time) {
 // may be acknowledged, or outstanding with a lease and retention restarted by the seek.
 func (m *Model) fuzzyBySeek(e *ED, t0, t1 time.Time) {
 	e.SnapPruned = false
+	e.SnapCopy = false
 	e.Fuzzy = true
 	e.BySeek = true
 	if e.State != stOut || e.DLMaybe {
@@ -1152,6 +1189,7 @@ func (m *Model) fuzzyBySeek(e *ED, t0, t1 time.Time) {
 
 func (m *Model) settleBySeek(e *ED, t0 time.Time) {
 	e.SnapPruned = false
+	e.SnapCopy = false
 	e.State = stAcked
 	e.SettledLo = e.settledSince(t0)
 	e.Fuzzy = false
@@ -1281,6 +1319,15 @@ func (m *Model) SeekSnap(s *MSub, sn *MSnap, t0, t1 time.Time) {
 		} else if msgAfter {
 			want = 1
 		}
+		if own && e.Origin != nil && want == 0 && e.State == stAcked && !e.Fuzzy {
+			// (known finding) the ack list of a snapshot is built from the topic's messages by
+			// message publish time; a dead-letter forwarded copy never gets onto it, so the
+			// seek may re-open this acknowledged copy
+			m.fuzzyBySeek(e, t0, t1)
+			e.SnapCopy = true
+			m.probe("own_seek_over_acked_dead_letter_copy")
+			continue
+		}
 		switch want {
 		case 1:
 			if e.Fuzzy {
@@ -1295,6 +1342,9 @@ func (m *Model) SeekSnap(s *MSub, sn *MSnap, t0, t1 time.Time) {
 				m.settleBySeek(e, t0)
 			}
 			if !own && e.Origin == nil && sn.PrunedAck[e.Msg] && e.State == stAcked {
+				// (known finding) the snapshot may have forgotten this ack: the delivery may
+				// really be outstanding again, and then be redelivered or dead-lettered
+				m.fuzzyBySeek(e, t0, t1)
 				e.SnapPruned = true
 				m.probe("sibling_seek_to_snapshot_with_pruned_ack")
 			}
